@@ -1,6 +1,6 @@
 module verif
 
-go 1.20
+go 1.21
 
 require gitlab.com/yawning/secp256k1-voi v0.0.0
 
